@@ -292,9 +292,9 @@ def _get_unrotated_normals(
 def _get_indices(shape: tuple[int, ...]) -> NDArray[np.float32]:
     inds = np.indices(shape, dtype=np.float32)
     for ind, s in zip(inds, shape):
-        # Note that the shifts in indices must resemble the shifts in fftshift.
-        ind -= np.ceil(s / 2)
-    return np.fft.fftshift(np.stack(list(inds), axis=-1), axes=(0, 1, 2))
+        # FFT-ordered integer frequencies: 0, 1, ..., -2, -1 (same as fftfreq(s) * s)
+        ind -= s // 2
+    return np.fft.ifftshift(np.stack(list(inds), axis=-1), axes=(0, 1, 2))
 
 
 # lowpass filter
